@@ -306,6 +306,12 @@ func buildWireKinds() []wireKind {
 	add(clientFetchKind("client-fetch-v4-magic2", 4, 2, 0))
 	add(clientFetchKind("client-fetch-v11-magic2-gzip", 11, 2, 1))
 	add(clientFetchKind("client-fetch-v11-magic2-zstd", 11, 2, 4))
+	// (three batches of 5 KiB each: a cut inside a later batch leaves more
+	// than a read buffer's worth of the announced frame outstanding)
+	for _, k := range []wireKind{clientFetchKind("client-fetch-v11-magic2-2.5KiB-values", 11, 2, 0), clientFetchKind("client-fetch-v2-magic1-2.5KiB-values", 2, 1, 0)} {
+		k.pad = 2500
+		add(k)
+	}
 	for _, mv := range []int16{1, 5, 8} {
 		mv := mv
 		add(wireKind{name: fmt.Sprintf("client-metadata<=v%d", mv), path: "transport", api: 3, vers: vers(3, mv), call: func(e *wireEnv) (string, error) {
@@ -1090,7 +1096,10 @@ func lenfuzzScenario(s *Sim, params map[string]string) {
 // Whatever the decoder does with the fields it could not read, it must not
 // turn them into counts or lengths to allocate by.
 
-var sizecutSizes = []int64{1 << 20, 1 << 26, 1<<31 - 1}
+// (the last four: what the first bytes of another protocol's answer read as —
+// a TLS alert, a TLS handshake record, "HTTP", "SSH-"; the bytes behind such a
+// size are then not the response's but filler with the high bit set)
+var sizecutSizes = []int64{1 << 20, 1 << 26, 1<<31 - 1, 0x15030302, 0x16030300, 0x48545450, 0x5353482d}
 
 const sizecutMaxLen = 512
 
@@ -1129,6 +1138,12 @@ func sizecutScenario(s *Sim, params map[string]string) {
 		}
 		cutAt = p
 		binary.BigEndian.PutUint32(frame, uint32(size))
+		if size >= 0x15030000 && size != 1<<31-1 {
+			for i := 4; i < len(frame); i++ {
+				frame[i] = byte(0x80 + (i*37+idx)%128)
+			}
+			s.Count("fault:foreign-protocol-answer")
+		}
 		r.Fault = "cut-exact"
 		s.Count("fault:size-lie-and-cut")
 		return frame
